@@ -18,7 +18,7 @@ from sqlcase import RL, Lite, DISK_LAYOUTS, ms, ordered_equal
 TYPES = ("INT", "BIGINT", "BOOLEAN", "VARCHAR")
 # constructs on which both dialects define the same answer
 FEATURES = dict(full_join=True, not_in_sub=False, like=False, bool_col_cond=False, offset_no_limit=False, case_no_else=True,
-                corr_in_sub=False, null_lit=False, cross=True, derived_limit=True, cast=True, concat=True, scalar_sub=True,
+                corr_in_sub=False, null_lit=True, cross=True, derived_limit=True, cast=True, concat=True, scalar_sub=True,
                 mixed_int=True, group_expr=False)
 
 
